@@ -833,6 +833,7 @@ func ruleFLD2() Rule {
 				self   bool
 				src    string
 				pos    token.Pos
+				parent ast.Node
 			}
 			for _, f := range c.funcsOfPkg("interp", false) {
 				info := f.Info()
@@ -845,7 +846,7 @@ func ruleFLD2() Rule {
 								if !fieldSel(info, l, "interp", "field", fld) {
 									continue
 								}
-								ww := w{pos: n.Pos()}
+								ww := w{pos: n.Pos(), parent: c.P.Parent(n)}
 								if i < len(n.Rhs) {
 									if call, ok := n.Rhs[i].(*ast.CallExpr); ok && isBuiltinCall(info, call, "append") && len(call.Args) == 2 {
 										ww.self = exprStr(call.Args[0]) == exprStr(l)
@@ -874,7 +875,7 @@ func ruleFLD2() Rule {
 				}
 				key := f.Name + "|b/quote"
 				b, q := writes["b"], writes["quote"]
-				if len(b) == 1 && len(q) == 1 && b[0].self && q[0].self && b[0].spread == q[0].spread && b[0].src == q[0].src {
+				if len(b) == 1 && len(q) == 1 && b[0].self && q[0].self && b[0].spread == q[0].spread && b[0].src == q[0].src && b[0].parent == q[0].parent {
 					rr.OK(f, key, b[0].pos, "pairwise", "one append to each of b and quote with the same shape")
 				} else {
 					pos := f.Pos()
